@@ -1,7 +1,7 @@
 (* C09 — k-medoids refinement never worsens the cost and keeps centres in the data.
    cost = sum of squared frame-to-centre distances (the code compares means over the same n > 0). *)
 From Coq Require Import List ZArith QArith.
-From EV Require Import Cluster ClusterCase ClusterBase ClusterInv ClusterPam ClusterKC ClusterTop ClusterExample KcGuardBase ClusterGen ClusterSkel ClusterGenProofs ClusterPamHistory ClusterPropose.
+From EV Require Import Cluster ClusterCase ClusterBase ClusterInv ClusterPam ClusterKC ClusterTop ClusterExample KcGuardBase ClusterGen ClusterSkel ClusterGenProofs ClusterPamHistory ClusterPropose ClusterRepropose.
 Import ListNotations.
 
 (* a proposal is accepted iff it strictly lowers the cost; a rejected proposal leaves the state
@@ -140,6 +140,25 @@ Theorem c09_random_sweeps_never_worsen : forall D, (forall f, D f f == 0) -> (fo
   sumsq (snd (run_choose D chs s)) <= sumsq (snd s).
 Proof. exact run_choose_inv. Qed.
 Print Assumptions c09_random_sweeps_never_worsen.
+
+(* ---- proposing a frame that already is a medoid -- the current medoid of the cluster being
+   updated (the code does not exclude it: "TODO: make it impossible to choose the current center")
+   or another cluster's medoid -- is rejected and leaves labels, distances and medoids untouched *)
+Theorem c09_medoid_proposal_is_noop : forall D, (forall f, D f f == 0) -> (forall c f, c <> f -> 0 < D c f) ->
+  forall n s cid p, Inv D n s -> (cid < length (fst s))%nat -> In p (fst s) -> pam_update D s cid p = s.
+Proof. exact medoid_proposal_is_noop. Qed.
+Print Assumptions c09_medoid_proposal_is_noop.
+
+Theorem c09_current_medoid_proposal_is_noop : forall D, (forall f, D f f == 0) -> (forall c f, c <> f -> 0 < D c f) ->
+  forall n s cid, Inv D n s -> (cid < length (fst s))%nat -> pam_update D s cid (ctr (fst s) cid) = s.
+Proof. exact current_medoid_proposal_is_noop. Qed.
+Print Assumptions c09_current_medoid_proposal_is_noop.
+
+Theorem c09_sweep_of_medoid_proposals_is_identity : forall D, (forall f, D f f == 0) -> (forall c f, c <> f -> 0 < D c f) ->
+  forall n props cid s, Inv D n s -> (cid + length props <= length (fst s))%nat ->
+  Forall (fun p => In p (fst s)) props -> pam_sweep_from D cid props s = s.
+Proof. exact medoid_sweep_is_noop. Qed.
+Print Assumptions c09_sweep_of_medoid_proposals_is_identity.
 
 Example c09_example :
   st_show (hybrid_cold (Dline pos_id) (Some 2%nat) 0 6 [[1; 4]; [0; 3]]%nat) = ([1; 4]%nat, [0; 0; 0; 1; 1; 1]%nat, [1; 0; 1; 1; 0; 1])
